@@ -109,6 +109,16 @@ point(struct var *v, uint64_t seed, unsigned char *msg, uint64_t *exp, int len, 
         }
 }
 
+static int
+near_pow2(int l)
+{
+        int k;
+        for (k = 10; k < 24; k++)
+                if (l >= (1 << k) - 40 && l <= (1 << k) + 70)
+                        return 1;
+        return 0;
+}
+
 int
 main(int argc, char **argv)
 {
@@ -154,7 +164,10 @@ main(int argc, char **argv)
                                 point(va, seed, msg, exp, N, VH_MID, 7);
                                 continue;
                         }
-                        for (len = 0; len <= N; len += (len < 600 || len > N - 70) ? 1 : lenstep) {
+                        /* dense: small lengths, the end, and the neighbourhoods of the kernels' block structure (Adler-32 reduces every
+                         * 5552 bytes; folding kernels change path at powers of two) */
+#define DENSE(l) ((l) < 600 || (l) > N - 70 || (l) % 5552 < 72 || (l) % 5552 > 5552 - 40)
+                        for (len = 0; len <= N; len += (DENSE(len) || near_pow2(len)) ? 1 : lenstep) {
                                 point(va, seed, msg, exp, len, VH_END, 0);
                                 point(va, seed, msg, exp, len, VH_START, 0);
                                 point(va, seed, msg, exp, len, VH_MID, (len * 13 + 5) % 64);
